@@ -865,7 +865,9 @@ impl Parser for Statement {
             let (input, ((_, ignored), mut info)) = info(tuple((
                 many0(comment),
                 ignore_until1(peek(look_ahead::stmt)),
-            )))(input)?;
+            )))(input.clone())
+            // if there is nothing to ignore, the skipped comments must not be consumed either
+            .map_err(|err| err.map(|err| ParserError { input, ..err }))?;
             let err = SplError(
                 info.to_range(),
                 ParseErrorMessage::UnexpectedCharacters(
